@@ -38,8 +38,41 @@ def cases(tier, seed):
     return out
 
 
+def special_cases(tier, seed):
+    """(a) single RPCs far larger than the send-buffer capacity (17 MiB with capacity 0 / 1 KB, 40 MB with the default 16 MB):
+    one physical MPI message each, which must fit the posted receive slots; (b) round-robin (cyclic) placement of ranks on
+    nodes, where node members are not contiguous rank ranges.  Both are judged by the delivery / barrier oracles only (the
+    trace acceptor needs the payload bytes in the log and the block-placement router model)."""
+    rng = T.Rng(seed * 7919 + 3)
+    out = []
+    params = {"maxfan": 1, "hprog": 0, "hcb": 0, "hbc": 0}
+    for (N, P) in ((1, 2), (2, 2)):
+        for kb, size in ((0, 17 << 20), (1, (17 << 20) + 5), (None, 40 * 1000 * 1000)):
+            n = N * P
+            ops = [(0, 0, "async", (1 << 22) + 1, n - 1, size, 0), (0, n - 1, "async", (1 << 22) + 2, 0, 8, 1)]
+            if kb is None:
+                ops.append((0, 1 % n, "bcast", (1 << 22) + 3, 100, 0))
+            sc = T.Scenario(n, 1, dict(params), [8, 100], ops)
+            cfg = T.Config(N, P, rng.choice(T.ROUTINGS), kb, irecvs=rng.choice([1, 2]), isends_wait=rng.choice([0, 4]), issend=rng.choice([0, 8]),
+                           policy=rng.choice(T.POLICIES), eager=rng.choice([0, 100]), sim_seed=rng.below(1 << 30))
+            cfg.default_irecv_size = 1      # YGM_COMM_IRECV_SIZE_KB unset: the library's default slot size must hold any single message
+            out.append((sc, cfg))
+    lays = [(3, 2), (4, 2), (2, 4), (2, 3), (2, 2)] if tier == "quick" else [(3, 2), (4, 2), (2, 4), (2, 3), (2, 2), (3, 3), (5, 2), (4, 3), (3, 4)]
+    for rep in range(1 if tier == "quick" else 4):
+        for (N, P) in lays:
+            for routing in ("NR", "NLNR", "NONE"):
+                sc = T.gen_scenario(rng, N * P, epochs=2, ops_per_rank=rng.choice([3, 6]), ttl=2, maxfan=2, hprog=15, hcb=5, hbc=5,
+                                    p_bcast=8, p_mcast=6, sizes=(0, 8, 100, 600, 1500))
+                out.append((sc, T.Config(N, P, routing, rng.choice([0, 1, None]), irecvs=rng.choice([1, 8]), isends_wait=rng.choice([0, 4]),
+                                         issend=rng.choice([0, 8]), policy=rng.choice(T.POLICIES), eager=rng.choice([0, 50, 100]),
+                                         sim_seed=rng.below(1 << 30), placement="cyclic")))
+    return out
+
+
 def extra(local, sc, cfg, sr, hev, wire, out):
     from props import acceptors
+    if getattr(cfg, "placement", None) or any(op[2] == "async" and int(op[5]) > (1 << 20) for op in sc.ops):
+        return      # oracle-only families (see special_cases)
     acceptors.deliver(local, sc, cfg, hev, wire)
 
 
@@ -47,13 +80,16 @@ def run(tier, seed, model_ok=True):
     res = C.Result()
     res.rule = ("[a quarter of the generated scenarios also run barriers of a SECOND ygm::comm living in the same process between the epochs; its events are removed from the judged history] " +
                 "seeded message DAGs (main-context asyncs/bcasts/mcasts, handler scripts that send again, payloads 0..40 kB incl. > capacity) x layouts x 3 routings x "
-                "capacity {0,1KB,16MB} x irecvs x isends_wait x issend x policy; non-trivial = handlers ran; distinct = (config, scenario shape)")
+                "capacity {0,1KB,16MB} x irecvs x isends_wait x issend x policy; non-trivial = handlers ran; distinct = (config, scenario shape). "
+                "Oracle-only families: single RPCs of 17 MiB (capacity 0 / 1 KB) and 40 MB (default capacity); round-robin (cyclic) placement of ranks on nodes "
+                "for 2x2..4x2 layouts x 3 routings. simmpi aborts a rank that modifies a send buffer before completion or posts overlapping receive buffers")
     res.assumptions = ["schedules sampled by seeded policies", "finite generated message DAGs"]
     binary, err = C.build_harness("traffic")
     if binary is None:
         res.corr_failures.append({"relation": "harness builds against /repo", "what": err[-800:], "case": None})
         return res
     K.run_cases(res, binary, cases(tier, seed), WANT, extra=extra if model_ok else None, log_bytes=-1)
+    K.run_cases(res, binary, special_cases(tier, seed), WANT, extra=None, log_bytes=0, nontrivial=lambda out: out.get("asyncs", 0) > 0)
     if res.oracle_failures:
         res.oracle_failures[0] = K.shrink(binary, res.oracle_failures[0], WANT, log_bytes=-1)
     return res
